@@ -1,5 +1,6 @@
 import NfcVerif.Model.Term
-open NfcVerif NfcVerif.Term
+import NfcVerif.Model.TermMulti
+open NfcVerif NfcVerif.Term NfcVerif.TermMulti
 
 def kv (toks : List String) (k : String) : String :=
   match toks.find? (fun t => t.startsWith (k ++ "=")) with
@@ -94,6 +95,52 @@ def sptName : SPt → String
   | .listenAccept => "accept" | .servePoll => "poll" | .serveRecv => "recv" | .serveSend => "send"
   | .finallyClose => "close" | .exited => "exited"
 
+/-! several threads on one socket (`NfcVerif.TermMulti`) -/
+def ptName (c : Call) (p : Pt) : String :=
+  match p with
+  | .bindAcq | .llcAcq => "Ll"
+  | .sockAcq => "Ls"
+  | _ => "W" ++ cvName p.cv ++ (if callTimeout c then ":t" else ":n")
+
+def appendAt (tr : List (List String)) (i : Nat) (s : String) : List (List String) :=
+  match tr[i]? with
+  | some l => tr.set i (l ++ [s])
+  | none => tr
+
+/-- `runM` with the scheduling points every thread passes -/
+def multiTrace (m : MState) : List Nat → List (List String) → MState × List (List String)
+  | [], tr => (m, tr)
+  | d :: ds, tr =>
+    let m1 := decide1 m d
+    let ran := match m.ths[d]? with
+      | some t => (stepOf t m.w).isSome
+      | none => false
+    let tr1 := if ran then
+        (match m1.ths[d]? with
+         | some t => (match t.stat with
+                      | .ready p => appendAt tr d (ptName t.call p)
+                      | .parked p false => appendAt tr d (ptName t.call p)
+                      | _ => tr)
+         | none => tr)
+      else tr
+    multiTrace m1 ds tr1
+
+def threadOut (t : Thread) : String :=
+  match t.stat with
+  | .done r => showPy showVal r
+  | .parked p false => if callTimeout t.call then "runnable" else "parked " ++ cvName p.cv
+  | _ => "runnable"
+
+def handleMulti (t : List String) : String :=
+  let w0 := parseWorld t
+  let w := if flag t "pre" then (terminate w0).1 else w0
+  let calls := ((kv t "calls").splitOn ",").filter (· ≠ "") |>.map parseCall
+  let script := ((kv t "script").splitOn ".").filter (· ≠ "") |>.map parseAct
+  let ds := ((kv t "sched").splitOn ".").filterMap (·.toNat?)
+  let r := multiTrace (mkState w calls script) ds (calls.map (fun _ => []))
+  let per := (r.1.ths.zip r.2).map (fun (th, tr) => ",".intercalate tr ++ "|" ++ threadOut th)
+  ";".intercalate per ++ "|" ++ showWorld r.1.w
+
 def handle (line : String) : String :=
   let t := line.splitOn " "
   match t.head? with
@@ -103,6 +150,14 @@ def handle (line : String) : String :=
     let c := parseCall (kv t "call")
     let script := ((kv t "script").splitOn ".").filter (· ≠ "") |>.map parseAct
     trace c 12 (start c w) script []
+  | some "multi" => handleMulti t
+  | some "svcstep" =>
+    let p := match kv t "p" with
+      | "accept" => SPt.listenAccept | "poll" => .servePoll | "recv" => .serveRecv | "send" => .serveSend
+      | "close" => .finallyClose | _ => .exited
+    let r := match kv t "r" with
+      | "value1" => R.value true | "value0" => .value false | "llcp" => .llcpError | _ => .otherExc
+    sptName (serviceStep (if kv t "srv" == "handover" then Srv.handover else Srv.snep) p r)
   | some "loop" =>
     let role := if kv t "role" == "target" then Role.target else Role.initiator
     let pt := match kv t "point" with | "dps" => LoopPt.dps | "first" => .first | _ => .established
@@ -117,7 +172,7 @@ def handle (line : String) : String :=
     let w := (terminate (parseWorld t)).1
     let p := match kv t "at" with
       | "accept" => SPt.listenAccept | "poll" => .servePoll | "recv" => .serveRecv | "send" => .serveSend | _ => .finallyClose
-    sptName (serviceRun w 6 p)
+    sptName (serviceRun (if kv t "srv" == "handover" then Srv.handover else Srv.snep) w 6 p)
   | _ => "bad-op"
 
 def main : IO Unit := runDriver handle
